@@ -200,6 +200,8 @@ bool LazyTableTranslation::FetchMoreTableEntries() {
   if (more.entry_count() > previous_entry_count) {
     more.Skip(previous_entry_count);
     iter_ = std::move(more);
+    // the input may spell several syllables: move the best entry to the head
+    iter_.Sort();
   }
   return true;
 }
@@ -264,6 +266,9 @@ an<Translation> TableTranslator::Query(const string& input,
     DictEntryIterator iter;
     if (dict_ && dict_->loaded()) {
       dict_->LookupWords(&iter, code, false);
+      // the input may spell several syllables: move the best entry to the head
+      if (!iter.exhausted())
+        iter.Sort();
     }
     UserDictEntryIterator uter;
     if (enable_user_dict) {
